@@ -342,6 +342,11 @@ def gen_cases(ctx):
         for kind in ('openapi-3.1', 'openapi-3.0'):
             for idx in itertools.permutations(core, 2):
                 yield dict(set='core', atoms=idx, stack=stack, kind=kind, prefix='multi')
+    for integration in ('aiohttp', 'flask'):
+        for base in ('/api', '/api/v1', '/rpc'):
+            for layout in ('main', 'endpoint', 'two-endpoints', 'container') + (('child',) if integration == 'aiohttp' else ()):
+                for kind in ('openapi', 'openrpc'):
+                    yield dict(set='served', integration=integration, base=base, layout=layout, kind=kind)
     xs = list(range(len(CORE), len(COREX)))
     for stack in ('pydantic', 'docstring', 'docstring+pydantic', 'default'):
         for kind in KINDS:
@@ -363,6 +368,8 @@ def gen_cases(ctx):
 
 
 def run_case(case, rec):
+    if case.get('set') == 'served':
+        return run_served(case, rec)
     table = {'core': CORE, 'corex': COREX}.get(case['set'], FULL)
     atoms = [table[i] for i in case['atoms']]
     kind, stack, prefix = case['kind'], case['stack'], case['prefix']
@@ -525,6 +532,94 @@ def run_sequence(case, rec, atoms, kind, stack, path, viol):
     return 'seq'
 
 
+def run_served(case, rec):
+    """the document as SERVED by a web-framework integration (GET <base>/openapi.json): every documented 'path#method' must be a
+    URL + method name that really reaches that method when POSTed to the same application, and every method registered on every
+    endpoint must be documented - the endpoint paths in the document are the paths the integration routes"""
+    from mc.harness.http import Integration
+    import flask
+    from aiohttp import web
+    kind, base, layout, speckind = case['integration'], case['base'], case['layout'], case['kind']
+    if speckind == 'openrpc':
+        spec = openrpc.OpenRPC(info=openrpc.Info(title='t', version='1'), schema_extractor=PydanticSchemaExtractor())
+    else:
+        spec = openapi.OpenAPI(info=openapi.Info(title='t', version='1'), schema_extractors=[PydanticSchemaExtractor()])
+    integ = Integration(kind, base, spec=spec)
+    is_async = kind == 'aiohttp'
+
+    def mk(tag):
+        if is_async:
+            async def f(a: int = 0) -> str:
+                return tag
+        else:
+            def f(a: int = 0) -> str:
+                return tag
+        return f
+    registered = {}          # (url path, method name) -> tag
+
+    def reg(dispatcher, url, names):
+        for n in names:
+            tag = '%s:%s' % (url, n)
+            dispatcher.add(mk(tag), name=n)
+            registered[(url, n)] = tag
+    rpc = integ.rpc
+    reg(rpc.dispatcher, base, ['alpha', 'shared'])
+    if layout in ('endpoint', 'two-endpoints'):
+        reg(rpc.add_endpoint('/sub'), base + '/sub', ['beta', 'shared'])
+    if layout == 'two-endpoints':
+        reg(rpc.add_endpoint('/sub/deep/'), base + '/sub/deep', ['gamma'])
+    if layout == 'container':
+        cont = dict(subapp=web.Application()) if kind == 'aiohttp' else dict(blueprint=flask.Blueprint('bp_c16', 'c16'))
+        reg(rpc.add_endpoint('/sub', **cont), base + '/sub', ['beta', 'shared'])
+    if layout == 'child':
+        from pjrpc.server.integration import aiohttp as ia
+        child = ia.Application('/rpc2')
+        rpc.add_subapp('/sub', child)
+        reg(child.dispatcher, base + '/sub/rpc2', ['beta', 'shared'])
+    c = dict(case)
+    rep = integ.get('%s/%s' % (base, spec.path.lstrip('/')))
+    rec.transitions += 1
+    if rep.raised or rep.status != 200:
+        rec.violation('C16:%s:served:the specification endpoint did not answer 200' % speckind, c, expected=200, observed=repr(rep))
+        return 'noserve'
+    try:
+        doc = json.loads(rep.body.decode('utf-8'))
+    except Exception as e:   # noqa
+        rec.violation('C16:%s:served:document is not JSON' % speckind, c, expected='JSON', observed=repr(rep.body[:200]))
+        return 'notjson'
+    if speckind == 'openrpc':
+        documented = {(base, m.get('name')) for m in doc.get('methods', [])}
+        want = {k for k in registered if k[0] == base}        # OpenRPC documents the endpoint it is served on
+    else:
+        documented = set()
+        for key in doc.get('paths', {}):
+            url, _, name = key.partition('#')
+            documented.add((url, name))
+        want = set(registered)
+    if documented != want:
+        rec.violation('C16:%s:served:documented (path, method) pairs differ from the registered ones' % speckind, c,
+                      expected=sorted(want), observed=sorted(documented))
+    for url, name in sorted(documented & want):
+        r = integ.post(json.dumps({'jsonrpc': '2.0', 'id': 1, 'method': name}).encode(), 'application/json', path=url)
+        rec.transitions += 1
+        got = None
+        try:
+            got = json.loads(r.body.decode('utf-8')).get('result')
+        except Exception:   # noqa
+            pass
+        if got != registered[(url, name)]:
+            rec.violation('C16:%s:served:a documented path#method does not reach the method it documents' % speckind, dict(c, url=url, method=name),
+                          expected=registered[(url, name)], observed=repr(r))
+    h = hashlib.sha1((speckind + rep.body.decode('utf-8')).encode()).hexdigest()
+    k = 'openapi-3.1' if speckind == 'openapi' else 'openrpc'
+    rec.blobs.setdefault(h, (k, json.dumps(doc, sort_keys=True), c))
+    rec.states += 1
+    rec.traces += 1
+    rec.nontrivial_n += 1
+    rec.outcomes['served:' + speckind] += 1
+    return h
+
+
 def second_stage(ctx):
     blobs = ctx.rec.blobs
     if not blobs:
@@ -591,7 +686,7 @@ def replay(doc):
     from mc.core import Ctx, Recorder, jdump
     rec = Recorder()
     c = doc['case']
-    case = {k: c[k] for k in ('set', 'atoms', 'stack', 'kind', 'prefix', 'variant', 'sequence', 'late_error', 'alias') if k in c}
+    case = {k: c[k] for k in ('set', 'atoms', 'stack', 'kind', 'prefix', 'variant', 'sequence', 'late_error', 'alias', 'integration', 'base', 'layout') if k in c}
     run_case(case, rec)
     ctx = Ctx('C16', 'quick', 0, 1)
     ctx.rec = rec
